@@ -295,7 +295,9 @@ func (in *Interp) imgStore(addr *Term, v *Term) {
 	n := v.w / 8
 	for i := 0; i < n; i++ {
 		b := Extract(v, 8*i+7, 8*i)
-		p.image = Store(p.image, Add(addr, BV(64, uint64(i))), b)
+		a := Add(addr, BV(64, uint64(i)))
+		p.image = Store(p.image, a, b)
+		p.imgLog = append(p.imgLog, a)
 	}
 	p.imgWrites++
 }
@@ -706,7 +708,7 @@ func (in *Interp) prepareCall(fr *frame, c *ssa.CallCommon) (Value, []Value) {
 		if nf := in.nativeMethod(ifc, c.Method); nf != nil {
 			fn = nf
 		} else {
-			m := in.prog.LookupMethod(ifc.t, c.Method.Pkg(), c.Method.Name())
+			m := in.lookupMethod(ifc.t, c.Method.Pkg(), c.Method.Name())
 			if m == nil {
 				panic(fmt.Sprintf("method %s not found on %s at %s", c.Method.Name(), ifc.t, fr.site()))
 			}
@@ -970,6 +972,9 @@ func (in *Interp) binop(fr *frame, op token.Token, t types.Type, xv, yv Value) V
 		y, ok := yv.(string)
 		if !ok {
 			if sy, isSym := yv.(*SymStr); isSym {
+				if op == token.ADD {
+					return symConcat(xv, yv)
+				}
 				return in.symStrBinop(fr, op, x, sy)
 			}
 			break
@@ -992,7 +997,7 @@ func (in *Interp) binop(fr *frame, op token.Token, t types.Type, xv, yv Value) V
 		}
 	case *SymStr:
 		if op == token.ADD {
-			return &SymStr{tag: "concat", args: []Value{xv, yv}}
+			return symConcat(xv, yv)
 		}
 		if ys, ok := yv.(string); ok {
 			return in.symStrBinop(fr, op, ys, x)
@@ -1037,7 +1042,7 @@ func (in *Interp) binop(fr *frame, op token.Token, t types.Type, xv, yv Value) V
 		return BNot(in.equal(fr, xv, yv))
 	case token.ADD:
 		if _, ok := yv.(*SymStr); ok {
-			return &SymStr{tag: "concat", args: []Value{xv, yv}}
+			return symConcat(xv, yv)
 		}
 	}
 	panic(fmt.Sprintf("binop %s on %T, %T at %s", op, xv, yv, fr.site()))
@@ -2008,4 +2013,13 @@ func dbg(format string, a ...interface{}) {
 	if os.Getenv("SYMGO_DEBUG") != "" {
 		fmt.Fprintf(os.Stderr, format+"\n", a...)
 	}
+}
+
+// lookupMethod returns the implementation of method name on type t, or nil.
+func (in *Interp) lookupMethod(t types.Type, pkg *types.Package, name string) *ssa.Function {
+	sel := in.prog.MethodSets.MethodSet(t).Lookup(pkg, name)
+	if sel == nil {
+		return nil
+	}
+	return in.prog.MethodValue(sel)
 }
